@@ -64,10 +64,19 @@ def w_lats(arg):
             for i in (0, 1):
                 k += 1
                 e = C.encode(lat, lon, i, surface)
-                if C.near_transition(e["rlat"], C.EPS):
-                    acc.c["skipped_near_transition"] += 1
-                    continue
                 tc = tcs[k % len(tcs)]
+                if C.near_transition(e["rlat"], C.EPS):
+                    # either NL admissible: only totality is judged (no exception, finite pair)
+                    acc.c["near_transition_only_totality_judged"] += 1
+                    me0 = (C.me_surface(tc, 1, 0, 0, i, e["yz"], e["xz"]) if surface else C.me_airborne(tc, 0, i, e["yz"], e["xz"]))
+                    m_ = F.es(me0, 0x406B90, 5, 17)
+                    for latr_ in (float(e["rlat"]), float(e["rlat"]) - 0.2):
+                        acc.n += 1
+                        r_ = call(pms.adsb.position_with_ref, m_, latr_, float(S.wrap180(e["rlon"])))
+                        if r_[0] != "ok" or not (isinstance(r_[1], tuple) and len(r_[1]) == 2 and all(x == x and abs(x) < 1e4 for x in r_[1])):
+                            acc.bad("withref:raises_or_malformed_at_a_transition_latitude:%s" % (r_[1] if r_[0] != "ok" else "shape"),
+                                    {"totality": [m_, latr_, float(S.wrap180(e["rlon"]))]})
+                    continue
                 if surface:
                     me = C.me_surface(tc, k % 128, k % 2, (k * 7) % 128, i, e["yz"], e["xz"], t=k % 2)
                 else:
@@ -127,6 +136,11 @@ def run(ctx):
 
 
 def replay(case):
+    if "totality" in case:
+        m_, la, lo = case["totality"]
+        r_ = call(pms.adsb.position_with_ref, m_, la, lo)
+        ok = r_[0] == "ok" and isinstance(r_[1], tuple) and len(r_[1]) == 2 and all(x == x and abs(x) < 1e4 for x in r_[1])
+        return [] if ok else [("withref:raises_or_malformed_at_a_transition_latitude:%s" % (r_[1] if r_[0] != "ok" else "shape"), case)]
     if "guard" in case:
         return [(s, c) for s, c in w_guard(None)["viols"]]
     s = judge(tuple(case["p"]))
